@@ -567,9 +567,14 @@ def build(ctx, label):
                               extra_flags=T1_FLAGS, rt_objs=("rt.c",), extra_rt=("t1.c",))
 
 
+EXCL_THEOREMS = ["multichan_lock_exclusion", "multichan_reach_excl", "multichan_capacity",
+                 "multichan_exactly_once_in_order", "multichan_exactly_once_in_order_states"]
+
+
 def run(ctx):
     ctx.trusted = TRUSTED
     core.coq_property(ctx, "Properties_C11.v", THEOREMS)
+    core.coq_property(ctx, "Properties_C11_excl.v", EXCL_THEOREMS)
     cases = gen_cases(ctx, ctx.tier)
     cor = corpus()
     allok = True
